@@ -105,6 +105,10 @@ def doc(kind: str) -> dict:
         d = rule_doc("ok1", 7)
         d["detection"]["sel"] = {"fieldA|contains": "v7"}
         return d
+    if kind == "casedct":
+        d = rule_doc("ok1", 7)
+        d["detection"]["sel"] = {"fieldA|contains|cased": "v7"}
+        return d
     if kind == "custmod":
         d = rule_doc("ok1", 7)
         d["detection"]["sel"] = {"fieldA|containsnum": 4625}
@@ -132,7 +136,7 @@ def doc(kind: str) -> dict:
     return rule_doc(kind, 7)
 
 
-PROBES = ("ok1", "okstate", "neqok", "ok2", "direct", "phfile", "optph", "custmod")
+PROBES = ("ok1", "okstate", "neqok", "ok2", "direct", "phfile", "optph", "custmod", "casedct")
 _CLS = None
 
 
